@@ -574,7 +574,11 @@ def main(argv):
         return 2
     pid = argv[0]
     os.makedirs(RUNDIR, exist_ok=True)
-    seed = int(os.environ.get("VERIF_SEED", "1"))
+    try:
+        seed = int(os.environ.get("VERIF_SEED", "1"))
+    except ValueError:
+        seed = 1
+    seed %= 1 << 63  # the workers take an unsigned 64-bit seed
     if pid == "all":
         rc = 0
         for p in sorted(plans.PLANS):
